@@ -1,4 +1,6 @@
 import AdaptiveProofs.Lemmas.L1DSorted
+import AdaptiveProofs.Lemmas.L1DInv
+import AdaptiveProofs.Lemmas.L1DScale
 
 /-!
 # C01 — Learner1D: the reported loss is the true worst-interval loss of the current data
@@ -43,5 +45,62 @@ theorem c01_loss_ge_all (lo hi factor dxEps : α) (nn : Nat) (ops : List (Op α)
     ∃ v, loss s true = .fin v ∧ ∀ iv w, (iv, Loss.fin w) ∈ s.losses → r12 w ≤ r12 v := by
   intro s hm hne hfin
   exact loss_real_ge_all_finite r12 s (tablesSorted_run lossFn r12 lo hi factor dxEps nn ops) hm hne hfin
+
+/-- C01.d  One loss per pair of neighbouring evaluated points, one expected loss per pair of
+neighbouring evaluated-or-pending points, and no other entries — in every reachable state
+(every `nn`, every op list, including the batch path of `tell_many`). -/
+theorem c01_one_loss_per_interval (lo hi factor dxEps : α) (nn : Nat) (ops : List (Op α)) :
+    let s := run lossFn r12 (init lo hi factor dxEps nn) ops
+    s.xs.Pairwise (· < ·) ∧ s.xsC.Pairwise (· < ·) ∧
+    (∀ x, x ∈ s.xs ↔ hasData s x = true) ∧
+    (∀ x, x ∈ s.xsC ↔ (hasData s x = true ∨ x ∈ s.pending)) ∧
+    (∀ iv, (lget iv s.losses).isSome = true ↔ iv ∈ pairs s.xs) ∧
+    (∀ iv, (lget iv s.lossesC).isSome = true ↔ iv ∈ pairs s.xsC) ∧
+    (tkeys s.losses).Nodup ∧ (tkeys s.lossesC).Nodup := by
+  intro s
+  have hI : Inv s := inv_run lossFn r12 lo hi factor dxEps nn ops
+  obtain ⟨a, b, c, d, e, f⟩ := losses_cover lossFn r12 lo hi factor dxEps nn ops
+  exact ⟨hI.xs_sorted, hI.xsC_sorted, hI.xs_mem, hI.xsC_mem, fun iv => ⟨b iv, a iv⟩,
+    fun iv => ⟨d iv, c iv⟩, e, f⟩
+
+/-- C01.e  The output normalisation is never more than the recomputation factor out of date: in
+every reachable state (all told values having the same number of components, `1 ≤ factor`) the
+scale the losses were last fully recomputed with satisfies `oldScaleY ≤ scaleY ≤ factor · oldScaleY`;
+with factor 1 it is the current scale. -/
+theorem c01_staleness_bounded (lo hi factor dxEps : α) (nn : Nat) (hf : 1 ≤ factor) (d : Nat)
+    (ops : List (Op α)) (hops : ∀ op ∈ ops, OpDim d op) :
+    let s := run lossFn r12 (init lo hi factor dxEps nn) ops
+    s.scaleY ≤ s.factor * s.oldScaleY ∧ s.oldScaleY ≤ s.scaleY ∧ (factor = 1 → s.oldScaleY = s.scaleY) := by
+  intro s
+  obtain ⟨a, b⟩ := staleness_run lossFn r12 lo hi factor dxEps nn hf d ops hops
+  exact ⟨a, b, fun h1 => exact_of_factor_one lossFn r12 lo hi factor dxEps nn h1 d ops hops⟩
+
+/-- C01.f  When the output range has grown past the factor, `tell` recomputes EVERY interval from
+the current data with the current scale (no interval is skipped) and records the new scale. -/
+theorem c01_rescale_recomputes_all (s : State α) (h : s.factor * s.oldScaleY < s.scaleY) :
+    let s' := maybeRescale lossFn r12 s
+    s'.oldScaleY = s'.scaleY ∧
+    (∀ iv, iv ∈ tkeys s'.losses ↔ iv ∈ tkeys s.losses) ∧
+    (∀ iv ∈ tkeys s'.losses, lget iv s'.losses = some (getLoss lossFn s' iv.1 iv.2)) := by
+  intro s'
+  obtain ⟨a, b, _, d⟩ := maybeRescale_normalised lossFn r12 s h
+  exact ⟨a, b, d⟩
+
+/-- C01.g  The loss update of an evaluated interval `(xl, xr)`: its entry becomes the loss
+function's value on the current data and scales, and every piece `(a, b)` of it cut out by pending
+points gets the expected loss `(b - a) · loss / (xr - xl)` — proportional to its width; entries of
+other intervals are untouched. -/
+theorem c01_update_proportional {s : State α} (hs : s.xsC.Pairwise (· < ·)) (xl xr : α) :
+    let s' := updInterp lossFn r12 s xl xr
+    lget (xl, xr) s'.losses = some (getLoss lossFn s xl xr) ∧
+    (∀ a b, (a, b) ∈ pairs s.xsC → xl ≤ a → b ≤ xr →
+      lget (a, b) s'.lossesC = some (Loss.mulDiv (b - a) (getLoss lossFn s xl xr) (xr - xl))) ∧
+    (∀ k, ¬ (k ∈ pairs s.xsC ∧ xl ≤ k.1 ∧ k.2 ≤ xr) → lget k s'.lossesC = lget k s.lossesC) ∧
+    (∀ a b, getLoss lossFn s' a b = getLoss lossFn s a b) := by
+  intro s'
+  exact ⟨updInterp_losses_self lossFn r12 s xl xr,
+    fun a b hab hl hr => updInterp_lossesC_inside lossFn r12 hs xl xr hab hl hr,
+    fun k hk => updInterp_lossesC_outside lossFn r12 hs xl xr hk,
+    fun a b => getLoss_updInterp lossFn r12 s xl xr a b⟩
 
 end L1D
